@@ -20,6 +20,8 @@ pub enum RefSink {
 #[derive(Clone, Debug, Default, serde::Serialize)]
 pub struct RefOut {
     pub sinks: Vec<(SinkKind, RefSink)>,
+    /// the elements of every sink in the order the sequential evaluation produces them
+    pub ordered_sinks: Vec<Vec<Obs>>,
     /// per probe id: one sorted multiset per iteration observed at that point
     pub probes: BTreeMap<u32, Vec<Vec<Obs>>>,
     /// per loop (in order of first execution): number of rounds of each execution
@@ -91,6 +93,7 @@ impl Reference {
             SinkKind::CollectCount => RefSink::Count(v.len()),
             _ => RefSink::Items(sorted(&v)),
         };
+        self.out.ordered_sinks.push(v.iter().map(|r| r.obs()).collect());
         self.out.sinks.push((kind, r));
     }
 
@@ -254,6 +257,14 @@ impl Reference {
                 .filter(|r| f.keep(r.v))
                 .map(|mut r| {
                     r.v = g.apply(r.v, 0);
+                    r
+                })
+                .collect(),
+            Stage::RichIndex => v
+                .into_iter()
+                .enumerate()
+                .map(|(i, mut r)| {
+                    r.v = r.v.wrapping_mul(31).wrapping_add(i as i64);
                     r
                 })
                 .collect(),
